@@ -382,6 +382,11 @@ func (c *Codec) newRecord(t Rtype) (Record, error) {
 }
 
 func (c *Codec) decodeRecord(text []byte) (Record, error) {
+	if len(text) == 0 {
+		// no record type: text[:1] would read past the end of the caller's line
+		// (into the spare capacity of its buffer) and the decoder would panic
+		return nil, ErrBadRType
+	}
 	t := decodeRtype(text)
 	r, err := c.newRecord(t)
 	if err != nil {
